@@ -428,6 +428,14 @@ fn base_batch() -> Base {
     base
 }
 
+/// For C18: the batch-STARK *verification circuit* (the recursion front end: `verify_p3_batch_proof_circuit`
+/// over a real proof whose tables have different heights) built `n` times in this process; one line per
+/// build with the circuit's fingerprint (counts + order-sensitive hash of the op list).
+pub fn verifier_circuit_fingerprints(n: usize) -> Vec<String> {
+    let base = base_batch();
+    (0..n).map(|_| format!("{:?}", base.run(&base.input).0)).collect()
+}
+
 // ------------------------------------------------------------------ structural mutator over JSON
 
 #[derive(Clone, Debug, PartialEq)]
